@@ -90,6 +90,8 @@ def run(ctx, rep):
     rep.rule("W3", "the identity mode resets the weight field (otherwise a re-used loss keeps the previous dataset's weights)", floor=2)
     rep.rule("W4", "every subscript store in the weight hook is shape-compatible for every outcome count", floor=2)
     rep.rule("W5", "value, gradient and Hessian of a class read the same weight and data fields", floor=4)
+    rep.rule("W7", "generic losses: the model of schedule i is rows [size*i, size*(i+1)) of matA and the SAME rows of vecB (value), and "
+                   "row size*i + k, k < size (gradient)", floor=3)
     rep.rule("W6", "squared error: gradient = 2*sum B(dv, v), Hessian = 2*sum [B(dv_a, dv_b) + B(d2v, v)] for value = sum B(v, v), "
                    "v = p(x) - q (fast path 2 A^T W (A x + b - q)); relative entropy: value/gradient/Hessian use the same (q, p) order "
                    "and the same weight factor", floor=6)
@@ -165,6 +167,7 @@ def run(ctx, rep):
                   file=c.module.relpath, line=c.node.lineno)
     _w4(ctx, rep)
     _w6(ctx, rep)
+    _w7(ctx, rep)
 
 
 def _branch_must_writes(ctx, ff: FieldFlow, hook: Func, body):
@@ -475,3 +478,87 @@ def _w6(ctx, rep):
         ok = forms == want_forms and q == "self.prob_dists_q[index]" and p == "self.func_prob_dists[index](var)"
         rep.check(ok, "W6", rc.methods[nm], "relative entropy %s" % nm, "w_i * f(q_i, p_i(x))",
                   "%s uses %s with q=%s, p=%s; expected weights[index] * f(q, p) with q = data, p = model" % (nm, sorted(forms), q, p), node=rc.methods[nm].node)
+
+
+# ------------------------------------------------------------------------------ W7: per-schedule blocks of the model
+def _ipoly(e, defs, depth=0):
+    """integer expression over names -> Poly (names are symbols; single local definitions are inlined)"""
+    from ..poly import Poly
+    from fractions import Fraction
+    if depth > 8:
+        raise ValueError("definition chain too deep")
+    if isinstance(e, ast.Constant) and isinstance(e.value, int) and not isinstance(e.value, bool):
+        return Poly.const(e.value)
+    if isinstance(e, ast.Name):
+        if e.id in defs:
+            return _ipoly(defs[e.id], {k: v for k, v in defs.items() if k != e.id}, depth + 1)
+        return Poly.sym(e.id)
+    if isinstance(e, ast.BinOp) and isinstance(e.op, (ast.Add, ast.Sub, ast.Mult)):
+        l, r = _ipoly(e.left, defs, depth + 1), _ipoly(e.right, defs, depth + 1)
+        return l + r if isinstance(e.op, ast.Add) else (l - r if isinstance(e.op, ast.Sub) else l * r)
+    if isinstance(e, ast.UnaryOp) and isinstance(e.op, ast.USub):
+        return -_ipoly(e.operand, defs, depth + 1)
+    raise ValueError("not an integer polynomial: %s" % unparse(e))
+
+
+def _w7(ctx, rep):
+    from ..poly import Poly
+    c = ctx.ix.cls(LF + "probability_based_loss_function.ProbabilityBasedLossFunction")
+    for mname, arrays in (("_generate_func_prob_dist", ("matA", "vecB")), ("_generate_func_gradient_prob_dist", ("matA",))):
+        m = c.methods.get(mname)
+        if m is None:
+            raise AnalysisError("%s not found" % mname)
+        size_p = next((p for p in m.params if "size" in p), None)
+        idx_p = next((p for p in m.params if p == "index"), None)
+        if size_p is None or idx_p is None:
+            rep.undecided("W7", m, "block", "parameters (size, index) not found")
+            continue
+        s, i = Poly.sym(size_p), Poly.sym(idx_p)
+        nodes = list(ast.walk(m.node))
+        defs = {}
+        multi = set()
+        for n in nodes:
+            if isinstance(n, ast.Assign) and len(n.targets) == 1 and isinstance(n.targets[0], ast.Name):
+                if n.targets[0].id in defs:
+                    multi.add(n.targets[0].id)
+                defs[n.targets[0].id] = n.value
+        for k in multi:
+            defs.pop(k, None)
+        seen = {a: 0 for a in arrays}
+        for n in nodes:
+            if not (isinstance(n, ast.Subscript) and isinstance(n.value, ast.Name) and n.value.id in arrays and isinstance(n.ctx, ast.Load)):
+                continue
+            arr = n.value.id
+            sl = n.slice
+            row = sl.elts[0] if isinstance(sl, ast.Tuple) else sl
+            con = "%s: %s" % (mname, unparse(n))
+            try:
+                if isinstance(row, ast.Slice):
+                    if row.lower is None or row.upper is None or row.step is not None:
+                        rep.violation("W7", m, con, "open or strided row range; schedule %s owns rows [%s*%s, %s*(%s+1))" % (idx_p, size_p, idx_p, size_p, idx_p), node=n)
+                        continue
+                    lo, hi = _ipoly(row.lower, defs), _ipoly(row.upper, defs)
+                    ok = lo == s * i and hi - lo == s
+                    rep.check(ok, "W7", m, con, "rows [%s*%s, +%s)" % (size_p, idx_p, size_p),
+                              "rows [%r, %r) of %s are read for schedule %s; its block is [%s*%s, %s*%s + %s) (the matrix and the offset of one "
+                              "schedule must come from the same rows)" % (lo, hi, arr, idx_p, size_p, idx_p, size_p, idx_p, size_p), node=n)
+                    seen[arr] += 1
+                else:
+                    # single row: size*index + k with k ranging over range(size)
+                    comp = next((g for p_ in nodes if isinstance(p_, (ast.ListComp, ast.GeneratorExp)) for g in p_.generators
+                                 if isinstance(g.target, ast.Name) and any(isinstance(x, ast.Name) and x.id == g.target.id for x in ast.walk(row))), None)
+                    if comp is None:
+                        rep.undecided("W7", m, con, "row index is neither a slice nor offset + loop variable")
+                        continue
+                    k = comp.target.id
+                    r = _ipoly(row, defs)
+                    ok = r - Poly.sym(k) == s * i and unparse(comp.iter).replace(" ", "") == "range(%s)" % size_p
+                    rep.check(ok, "W7", m, con, "row %s*%s + %s, %s in range(%s)" % (size_p, idx_p, k, k, size_p),
+                              "row %r for %s in %s does not enumerate the block [%s*%s, +%s) of schedule %s" % (r, k, unparse(comp.iter), size_p, idx_p, size_p, idx_p),
+                              node=n)
+                    seen[arr] += 1
+            except ValueError as ex:
+                rep.undecided("W7", m, con, str(ex))
+        for a, k in seen.items():
+            if k == 0:
+                rep.undecided("W7", m, "%s: use of %s" % (mname, a), "no block access of %s found" % a)
